@@ -195,7 +195,7 @@ set_option maxHeartbeats 1000000 in
 theorem tgt_execCmd_frame {st : Pid → Status} {w : World} (h : TgtRun st w) (p : Pid) (c : Cmd)
     (h1 : ∀ z v, c ≠ .stop z v) (h2 : ∀ v, c ≠ .exit v) (h3 : ∀ d, c ≠ .hold d) (h4 : ∀ v d s, c ≠ .timerAdd v d s)
     (h5 : ∀ v d s, c ≠ .timerSet v d s) (h6 : ∀ q s, c ≠ .resume q s) (h7 : ∀ r, c ≠ .preempt r)
-    (h8 : ∀ q v, c ≠ .prioSet q v) : TgtRun st (execCmd w p c).1 := by
+    (h8 : ∀ q v, c ≠ .prioSet q v) (h9 : ∀ q d s, c ≠ .timerAddOf q d s) : TgtRun st (execCmd w p c).1 := by
   cases c
   case stop z v => exact absurd rfl (h1 z v)
   case exit v => exact absurd rfl (h2 v)
@@ -205,6 +205,7 @@ theorem tgt_execCmd_frame {st : Pid → Status} {w : World} (h : TgtRun st w) (p
   case resume q s => exact absurd rfl (h6 q s)
   case preempt r => exact absurd rfl (h7 r)
   case prioSet q v => exact absurd rfl (h8 q v)
+  case timerAddOf q d s => exact absurd rfl (h9 q d s)
   all_goals simp only [execCmd]
   all_goals tgt_cmd (tgt_closed st) h
 
@@ -296,8 +297,16 @@ theorem silent_execCmd {w : World} (hs : Silent w) (hh : HInv w) (hw : WInv w) (
           · ei_peel (tgt_closed _) internal_loud hw' 10
           · exact hw'
         · exact (tgt_closed _).ev_only hs rfl
+  by_cases h9 : ∃ q d s, c = .timerAddOf q d s
+  · obtain ⟨q, d, s, rfl⟩ := h9
+    simp only [execCmd]
+    split
+    · exact hs
+    · rename_i hc
+      have hq : (w.proc q).status = .running := by simpa [isRunning] using hc
+      exact (tgt_closed _).ev_only (tgt_timerAdd hs q d s hq) (by simp)
   exact tgt_execCmd_frame hs p c (fun z v e => h1 ⟨z, v, e⟩) (fun v e => h2 ⟨v, e⟩) (fun d e => h3 ⟨d, e⟩)
     (fun v d s e => h4 ⟨v, d, s, e⟩) (fun v d s e => h5 ⟨v, d, s, e⟩) (fun q s e => h6 ⟨q, s, e⟩)
-    (fun r e => h7 ⟨r, e⟩) (fun q v e => h8 ⟨q, v, e⟩)
+    (fun r e => h7 ⟨r, e⟩) (fun q v e => h8 ⟨q, v, e⟩) (fun q d s e => h9 ⟨q, d, s, e⟩)
 
 end CimbaModel.Sim
